@@ -130,6 +130,8 @@ class ArrTr:
             if mode == "req":
                 raise Unsupported("unsliced array %s inside a sum over adjacent elements" % _dotted(e))
             return self.leaf([a for a, _ in self.arrays].index(_dotted(e)), mode)
+        if isinstance(e, ast.Attribute) and _dotted(e) in self.size_attrs:
+            return V("R", self.LEN, False)
         if isinstance(e, ast.Attribute) and e.attr in self.identity_attrs:
             return self.ex(e.value, mode)
         if isinstance(e, ast.Subscript):
@@ -578,3 +580,26 @@ def translate_elementwise(repo, relpath, qualname, name, arrays, scalars, output
         # reductions over the whole list (a mean) are scalars of the enclosing function: the list becomes a parameter
         return ("Definition %s %s (cs : list %s) (l0 : Z) (c : %s) :=\n  %s%s.\n" % (name, " ".join(sig), E, E, "".join(tr.lets), body)).replace("@E@", E)
     return "Definition %s %s (l0 : Z) (c : %s) :=\n  %s.\n" % (name, " ".join(sig), E, body.replace("@E@", E))
+
+
+def translate_elementwise_return(repo, relpath, qualname, name, arrays, params, **opts):
+    """A function whose body is [docstring] `return <elementwise expression with whole-array reductions>`: the generic element
+    of the returned array, `name (cs : list E) (l0 : Z) (c : E) : R`."""
+    with open(os.path.join(repo, relpath)) as f:
+        tree = ast.parse(f.read())
+    fn = find_function(tree, qualname)
+    pyargs = [x.arg for x in fn.args.args if x.arg != "self"]
+    if pyargs != list(params) or fn.args.vararg or fn.args.kwarg or fn.args.kwonlyargs or fn.args.defaults:
+        raise Unsupported("signature of %s is %r" % (qualname, pyargs))
+    body = [st for st in fn.body if not (isinstance(st, ast.Expr) and isinstance(st.value, ast.Constant) and isinstance(st.value.value, str))]
+    if len(body) != 1 or not isinstance(body[0], ast.Return) or body[0].value is None:
+        raise Unsupported("%s is not a single return statement" % qualname)
+    tr = ArrTr(arrays, tree=tree, **opts)
+    for pn in pyargs:
+        if pn not in [n for n, _ in arrays]:
+            tr.env[pn] = ("ignored",)
+    v = tr.ex(body[0].value, None)
+    if not v.arr or v.ty == "C":
+        raise Unsupported("the return value of %s is not a real array" % qualname)
+    E = elem_type(arrays)
+    return ("Definition %s (cs : list %s) (l0 : Z) (c : %s) : R :=\n  %s%s.\n" % (name, E, E, "".join(tr.lets), toR(v).code)).replace("@E@", E)
